@@ -115,7 +115,7 @@ def leanchecker(mods):
         except subprocess.TimeoutExpired:
             return -1, "timeout"
     with vlib.Lock("lake"):
-        with ThreadPoolExecutor(max(1, vlib.NCPU // 6)) as ex:
+        with ThreadPoolExecutor(max(1, vlib.NCPU // 5)) as ex:
             res = list(ex.map(one, batches))
     bad = [f"rc={rc} modules={b[0]}..{b[-1]} {o}" for (rc, o), b in zip(res, batches) if rc != 0]
     return {"modules": len(names), "rc": 0 if not bad else 1, "output": bad[:3]}
